@@ -22,10 +22,11 @@ CHECK = {
     "replace": [{"file": "actor/passivation_manager.go", "old": "messageTriggers: make(chan *passivationEntry, 1024),", "new": "messageTriggers: make(chan *passivationEntry, 4),"}],
     # trigger's retry loop spins while tryPassivation keeps refusing (actor stopping, or suspended with passivation resumed): explored
     # for 2 iterations (refusal by the skip-next guard, then success), longer spins are assumed away (liveness, not this property)
-    "opts": {"unwind": 8, "substitute": SUB, "go_inline": True, "select_precise": True, "unwind_mode": "assume",
+    "opts": {"unwind": 8, "substitute": SUB, "go_inline": True, "select_precise": True, "batch_fresh": True, "unwind_mode": "assume",
              "loop_bounds": {"(*" + P + "passivationManager).trigger": 2}},
     "timeout_ms": {"quick": 600000, "thorough": 1800000},
     "stop": list(SUB.keys()),
-    "explanation": "TODO",
-    "bounds": {},
+    "explanation": "passivationManager.Register/Unregister/Pause/Resume/Touch/nextEntry/trigger/MessageProcessed/processMessageEntry/signalMessageEntry/passivate, passivationHeap with container/heap, entry.refreshDeadline, PID.markActivity/recordProcessedMessage/tryPassivation/pausePassivation/resumePassivation/startPassivation/suspend/doReinstate/setState/compareAndSwapState/reset and the passivation strategies are executed symbolically for one actor and its manager; time.Now is an arbitrary non-decreasing clock; the timeout T (any value in (0,2^40) ns) and the message count N are symbolic. Events: a message is handled (what handleReceived does: markActivity(now) + recordProcessedMessage), PausePassivation, ResumePassivation, suspend, reinstate, the manager's loop wakes (nextEntry+trigger, or a message-count trigger is served). (*PID).doStop is substituted by a recorder that asserts, at the moment of passivation: at most one passivation (PostStop), never long-lived, never while paused/suspended/stopping, time-based: now - (stamp of the latest handled message) >= T - 100ms and now - start >= T; count-based: >= N user messages handled since the registration. Main entries are ONE EVENT FROM AN ARBITRARY STATE satisfying an invariant written in the harness (activity stamps, flags mirror the observer's view, queued entry => deadline >= coalesced stamp + T; count: sinceRegistration = processed - baseline + 1, pending => threshold reached, queued trigger <=> enqueued and pending), plus invariant(init) on a freshly started actor, so histories of any length are covered; short histories from the initial state give the reachability witnesses. After the event: invariant again, a passivated actor is not running, gone from the manager, exactly one ActorPassivated event. Two dedicated entries exhibit known findings: a message handled between trigger's deadline test and tryPassivation (placed with the manager's own passivateFn hook), and a queued message-count trigger surviving a re-registration.",
+    "bounds": {'inductive step': '1 event (6 kinds, case split) from any state satisfying the invariant; 3 manager-entry shapes (unregistered / registered / queued) for time-based, 2 (registered / trigger queued) for count-based', 'histories': {'quick': 'time-based: 2 events (second = manager wake); count-based: 3 symbolic events, N <= 2', 'thorough': 'time-based: 3 events (first two case split, third symbolic); count-based: 4 symbolic events'}, 'actors': 1, 'timeout T': '(0, 2^40) ns', 'N': '[1, 2^30] in the step, <= 2 in histories', 'clock': 'arbitrary non-decreasing, < 2^62 ns, first reading >= 100ms', 'trigger retry loop': '2 iterations explored, longer spins assumed away', 'shrunk constant': 'messageTriggers channel capacity 1024 -> 4'},
+    "assumptions": ['the activity time of a message is the time stamp its turn took before handling it (runTurn reads the clock once per turn)', "sequential events: the only interleaving modelled is the one placed by vC12_race between trigger's deadline test and tryPassivation", "(*PID).doStop is substituted (its body needs a whole actor system): 'PostStop exactly once' is claimed as 'doStop is entered at most once per actor and only from tryPassivation'", "trigger's retry loop spins while tryPassivation keeps refusing (actor stopping, or suspended with passivation resumed by hand): executions with more than 2 iterations are assumed away (liveness, not this property)", 'doReinstate on an actor that is stopping but not suspended is not in the event alphabet', "one actor in the manager's heap (the heap order among several actors is container/heap's)", 'go statements run inline; a select with one case and default takes the case exactly when it is enabled'],
 }
